@@ -143,8 +143,11 @@ def extract(ctx):
 
 def build(ctx):
     sliced, fired = extract(ctx)
+    extract_lane(ctx, sliced, fired)
     C = os.path.join(HERE, 'c09.c')
     jobs = [
+        Job('lane.push', C, 'h_lane_push', route='RG', defines=['LANE'], loops=True, nloops=1, target='micro_queue::push + prepare_page + spin_wait_until_my_turn + value_guard (any ticket, any page-size class, any number of concurrent pushes/pops)', source=QB, timeout=600),
+        Job('lane.pop', C, 'h_lane_pop', route='RG', defines=['LANE'], loops=True, nloops=2, target='micro_queue::pop + assign_and_destroy_item + micro_queue_pop_finalizer + spin_wait_until_eq / spin_wait_while_eq', source=QB, timeout=600),
         Job('ticket.lanes', C, 'h_lanes', route='LF', defines=['TICKET'], target='concurrent_queue_rep::index', source=QB),
         Job('ticket.slots', C, 'h_slots', route='LF', defines=['TICKET'], target='micro_queue slot computation (prepare_page/pop) + modulo_power_of_two + items_per_page', source=QB),
         Job('claim.try_pop', C, 'h_try_pop', route='RG', defines=['CLAIM'], loops=True, nloops=2, target='internal_try_pop_impl (ticket loop)', source=CQ),
@@ -175,3 +178,278 @@ def replay(ctx, jobname, failure):
         w = re.search(r'class=(\S+)', m.group(1))
         rep['witness_class'] = w.group(1) if w else None
     return rep
+
+
+# =====================================================================================================================
+# micro_queue: the per-lane turnstile, the page list and the cells (jobs lane.*)
+# =====================================================================================================================
+def _initlist_to_assignments(rw, text, members):
+    """constructor `C(params) : a(x), b(y) {}` -> `{ self->a = (x); self->b = (y); }` in DECLARED member order (C++ initialises in declared order).
+    Mechanical: every item becomes one assignment, expressions untouched."""
+    m = cxx2c.mask(text)
+    b = m.find('{', m.find(')'))
+    depth, colon = 0, None
+    for i, ch in enumerate(m):
+        if ch == '(':
+            depth += 1
+        elif ch == ')':
+            depth -= 1
+        elif ch == ':' and depth == 0 and m[i + 1] != ':' and m[i - 1] != ':':
+            colon = i
+            break
+    if colon is None:
+        raise ExtractionBreak('%s: constructor without an initialiser list' % rw.name)
+    # the body is the first '{' that follows a ')' after the colon
+    j, depth, body_at = colon, 0, None
+    while j < len(m):
+        if m[j] == '(':
+            depth += 1
+        elif m[j] == ')':
+            depth -= 1
+        elif m[j] == '{' and depth == 0:
+            body_at = j
+            break
+        j += 1
+    items = []
+    for it in cxx2c.split_args(text[colon + 1:body_at]):
+        im = re.match(r'\s*(\w+)\s*\((.*)\)\s*$', it, re.S)
+        if not im:
+            raise ExtractionBreak('%s: cannot parse init-list item %r' % (rw.name, it))
+        items.append((im.group(1), im.group(2).strip()))
+    for nm, _ in items:
+        if nm not in members:
+            raise ExtractionBreak('%s: init-list member %s is not a known member' % (rw.name, nm))
+    items.sort(key=lambda x: members.index(x[0]))
+    rw.fired['ctor-init-list->assignments(declared order)'] = rw.fired.get('ctor-init-list->assignments(declared order)', 0) + len(items)
+    rest = text[body_at + 1:]
+    return text[:colon], '{\n' + ''.join('    self->%s = (%s);\n' % (nm, ex) for nm, ex in items) + rest
+
+
+def _declared_order(class_text, names):
+    pos = {}
+    for n in names:
+        m = re.search(r'[\w>\*&]\s+%s\s*;' % re.escape(n), class_text)
+        if not m:
+            raise ExtractionBreak('member %s not declared' % n)
+        pos[n] = m.start()
+    return sorted(names, key=lambda n: pos[n])
+
+
+MQ = r'class micro_queue \{'
+FIN = r'class micro_queue_pop_finalizer \{'
+PP = r'struct padded_page \{'
+
+
+def extract_lane(ctx, sliced, fired):
+    rw = Rewriter('lane')
+    out = []
+    qb = load(QB)
+    # -- constants / shapes the harness relies on (checked, not rewritten)
+    for pat, what in ((r'padded_page\* next\{ nullptr \};', 'padded_page::next default initialiser (a constructed page has no successor)'),
+                      (r'std::atomic<std::uintptr_t> mask\{\};', 'padded_page::mask default initialiser (a constructed page holds no item)'),
+                      (r'~destroyer\(\) \{my_value\.~T\(\);\}', 'destroyer::~destroyer destroys the referenced item'),
+                      (r'destroyer\( reference value \) : my_value\(value\) \{\}', 'destroyer constructor binds the item')):
+        if not re.search(pat, qb):
+            raise ExtractionBreak('_concurrent_queue_base.h: %s changed' % what)
+
+    def common(t, nm):
+        t = rw.sub(t, r'queue_rep_type::n_queue', 'n_queue', 0, name='ns-strip')
+        t = rw.sub(t, r'd1::call_itt_notify\([^;]*\);', 'RG_NOP();', 0, name='ITT notify -> RG_NOP')
+        t = rw.sub(t, r'(?<![\w:])(?<!struct )padded_page\s*\*', 'struct padded_page *', 0, name='type')
+        t = rw.sub(t, r'\b(\w+|\(\*p_ref\))->next\b', r'PAGE_NEXT(\1)', 0, name='page field access -> accessor macro')
+        t = rw.sub(t, r'\b(\w+|\(\*p_ref\))->mask\b', r'PAGE_MASK(\1)', 0, name='page field access -> accessor macro')
+        t = rw.sub(t, r'page_allocator_type page_allocator\(allocator\);', 'ALLOC_REBIND(page_allocator, allocator);', 0, name='allocator rebind (plumbing)')
+        t = rw.asserts(t, 0)
+        t = rw.casts(t, 0)
+        t = rw.fcasts(t, ['std::uintptr_t', 'uintptr_t'])
+        t = rw.std(t)
+        return t
+
+    # is_valid_page
+    s = slice_block(QB, r'inline bool is_valid_page\(const Page p\)')
+    sliced.append('%s:%d is_valid_page' % (QB, s.line))
+    t = rw.sub(s.text, r'inline bool is_valid_page\(const Page p\)', 'static bool is_valid_page(const struct padded_page *p)', 1, 1, name='sig + bind-template(Page:=padded_page*)')
+    out.append(common(t, 'valid'))
+    # padded_page::operator[]
+    s = slice_block(QB, r'(?<!_)reference operator\[\] \(std::size_t index\)', within=PP)
+    sliced.append('%s:%d padded_page::operator[]' % (QB, s.line))
+    t = rw.sub(s.text, r'reference operator\[\] \(std::size_t index\)', 'static value_type *padded_page_at(struct padded_page *self, size_t index)', 1, 1, name='sig (reference result -> pointer)')
+    t = rw.sub(t, r'return items\[index\];', 'return &PAGE_ITEMS(self)[index];', 1, 1, name='reference result -> pointer; page field access -> accessor macro')
+    out.append(common(t, 'at'))
+    # spin_wait_while / _while_eq / _until_eq (detail/_utils.h), instantiated for ticket_type with the wrappers' lambdas
+    s = slice_block(UT, r'T spin_wait_while\(const std::atomic<T>& location, C comp, std::memory_order order\)')
+    sliced.append('%s:%d spin_wait_while' % (UT, s.line))
+    for wn, short in (('spin_wait_while_eq', 'swweq'), ('spin_wait_until_eq', 'swueq')):
+        w = slice_block(UT, r'T %s\(const std::atomic<T>& location, const U value, std::memory_order order = std::memory_order_acquire\)' % wn)
+        sliced.append('%s:%d %s' % (UT, w.line, wn))
+        lm = re.search(r'return spin_wait_while\(location, \[&value\]\(T t\) \{ return ([^;]*); \}, order\);', w.text)
+        if not lm:
+            raise ExtractionBreak('%s: no longer spin_wait_while(location, <lambda on t and value>, order)' % wn)
+        out.append('static bool %s_comp(ticket_type t, ticket_type value) { return %s; }' % (wn, lm.group(1)))
+        t = rw.sub(s.text, r'T spin_wait_while\(const std::atomic<T>& location, C comp, std::memory_order order\)', 'static ticket_type %s(ticket_type *location, ticket_type value)' % wn, 1, 1, name='sig + bind-template(T:=ticket_type, C:=the wrapper lambda)')
+        t = rw.sub(t, r'\bcomp\(snapshot\)', '%s_comp(snapshot, value)' % wn, 1, name='lambda call')
+        t = rw.sub(t, r'atomic_backoff backoff;', 'RG_NOP();', 1, 1, name='backoff decl -> RG_NOP')
+        t = rw.sub(t, r'backoff\.pause\(\);', 'RG_NOP();', 0, name='backoff-call->RG_NOP')
+        t = rw.sub(t, r'\bT snapshot\b', 'ticket_type snapshot', 1, 1, name='bind-template')
+        t = rw.sub(t, r'location\.load\(order\)', 'location.load()', 1, name='memory order parameter dropped')
+        t = rw.atomics(t, ['location'], 1)
+        t = rw.sub(t, r'ATOMIC_LOAD\(location\)', 'ATOMIC_LOAD(*location)', 1, name='ref-param')
+        t = rw.number_sites(t, short, by_kind=True)
+        t = tag_loops(t, short, rw, expect=1)
+        out.append(t)
+    # micro_queue::spin_wait_until_my_turn
+    s = slice_block(QB, r'void spin_wait_until_my_turn\( std::atomic<ticket_type>& counter, ticket_type k, queue_rep_type& rb \) const', within=MQ)
+    sliced.append('%s:%d micro_queue::spin_wait_until_my_turn' % (QB, s.line))
+    t = rw.sub(s.text, r'void spin_wait_until_my_turn\( std::atomic<ticket_type>& counter, ticket_type k, queue_rep_type& rb \) const',
+               'static void mq_spin_wait_until_my_turn(struct micro_queue *self, ticket_type *counter, ticket_type k, struct queue_rep *rb)', 1, 1, name='sig')
+    t = rw.sub(t, r'for\s*\(\s*atomic_backoff (\w+)\{\};;\s*\1\.pause\(\)\s*\)', 'for (;;)', 1, 1, name='backoff-for')
+    t = rw.atomics(t, ['counter'], 1)
+    t = rw.sub(t, r'ATOMIC_LOAD\(counter\)', 'ATOMIC_LOAD(*counter)', 1, name='ref-param')
+    t = rw.sub(t, r'\+\+rb\.n_invalid_entries;', 'ATOMIC_PREINC(rb->n_invalid_entries);', 0, name='atomic ++ (ref-param)')
+    t = rw.sub(t, r'throw_exception\(\s*exception_id::bad_last_alloc\s*\);', '{ EXC_THROW(bad_last_alloc); return; }', 0, name='throw -> pending-exception flag + return')
+    t = common(t, 'turn')
+    t = rw.number_sites(t, 'turn', by_kind=True)
+    t = tag_loops(t, 'turn', rw, expect=1)
+    out.append(t)
+    # micro_queue::invalidate_page
+    s = slice_block(QB, r'void invalidate_page\( ticket_type k \)', within=MQ)
+    sliced.append('%s:%d micro_queue::invalidate_page' % (QB, s.line))
+    t = rw.sub(s.text, r'void invalidate_page\( ticket_type k \)', 'static void mq_invalidate_page(struct micro_queue *self, ticket_type k)', 1, 1, name='sig')
+    t = rw.scoped_locks(t, r'spin_mutex::scoped_lock \w+\(([^)]*)\);', 0, None)
+    t = rw.fields(t, ['head_page', 'tail_page', 'tail_counter', 'head_counter', 'page_mutex'], 1)
+    t = rw.atomics(t, ['head_page', 'tail_page', 'tail_counter'], 0)
+    t = common(t, 'inval')
+    t = rw.number_sites(t, 'inval', by_kind=True)
+    out.append(t)
+    # micro_queue::prepare_page
+    s = slice_block(QB, r'size_type prepare_page\( ticket_type k, queue_rep_type& base, page_allocator_type page_allocator,\s*padded_page\*& p \)', within=MQ)
+    sliced.append('%s:%d micro_queue::prepare_page' % (QB, s.line))
+    t = rw.sub(s.text, r'size_type prepare_page\( ticket_type k, queue_rep_type& base, page_allocator_type page_allocator,\s*padded_page\*& p \)',
+               'static size_type mq_prepare_page(struct micro_queue *self, ticket_type k, struct queue_rep *base, int page_allocator, struct padded_page **p_ref)', 1, 1, name='sig (reference parameters -> pointers)')
+    t = rw.sub(t, r'(?s)try_call\( \[&\] \{(.*?)\}\)\.on_exception\( \[&\] \{(.*?)\}\);', r'{ \1 if (EXC_PENDING()) { { \2 } EXC_RETHROW(0); } }', 0, None,
+               name='try_call(body).on_exception(handler) -> { body; if (exception pending) { handler; rethrow } }')
+    t = rw.sub(t, r'(?<![\w.>])p\b(?!_ref)', '(*p_ref)', 1, name='ref-param')
+    t = rw.sub(t, r'\+\+base\.n_invalid_entries;', 'ATOMIC_PREINC(base->n_invalid_entries);', 0, name='atomic ++ (ref-param)')
+    t = rw.sub(t, r'page_allocator_traits::allocate\(page_allocator, 1\)', 'STUB_page_allocate()', 0, name='callee stub (allocator; may throw)')
+    t = rw.sub(t, r'page_allocator_traits::construct\(page_allocator, \(\*p_ref\)\);', 'STUB_page_construct((*p_ref));', 0, name='callee stub (padded_page default constructor)')
+    t = rw.sub(t, r'invalidate_page\( k \);', 'mq_invalidate_page(self, k);', 0, name='method')
+    t = rw.sub(t, r'spin_wait_until_my_turn\(tail_counter, k, base\);', 'mq_spin_wait_until_my_turn(self, &self->tail_counter, k, base); EXC_PROPAGATE(0);', 0, name='method (may throw: exception edge made explicit)')
+    t = rw.scoped_locks(t, r'spin_mutex::scoped_lock \w+\(([^)]*)\);', 0, None)
+    t = rw.fields(t, ['head_page', 'tail_page', 'page_mutex'], 1)
+    t = rw.atomics(t, ['head_page', 'tail_page'], 0)
+    t = rw.sub(t, r'modulo_power_of_two\(k / n_queue, items_per_page\)|modulo_power_of_two\(k / queue_rep_type::n_queue, items_per_page\)', 'modulo_power_of_two(k / n_queue, items_per_page)', 0, name='(identity)')
+    t = common(t, 'prep')
+    t = rw.number_sites(t, 'prep', by_kind=True)
+    out.append(t)
+    # micro_queue::push: the raii guard body as a block of its own, the guard object as an explicit flag + scope exits
+    s = slice_block(QB, r'void push\( ticket_type k, queue_rep_type& base, queue_allocator_type& allocator, Args&&\.\.\. args \)', within=MQ)
+    sliced.append('%s:%d micro_queue::push (+ the value_guard body)' % (QB, s.line))
+    t = s.text
+    gm = re.search(r'(?s)auto value_guard = make_raii_guard\(\[&\] \{(.*?)\}\);', t)
+    if not gm:
+        raise ExtractionBreak('micro_queue::push: value_guard = make_raii_guard([&]{...}) not found')
+    g = 'static void mq_push_value_guard(struct micro_queue *self, struct queue_rep *base) {' + gm.group(1) + '}'
+    g = rw.sub(g, r'\+\+base\.n_invalid_entries;', 'ATOMIC_PREINC(base->n_invalid_entries);', 0, name='atomic ++ (ref-param)')
+    g = rw.fields(g, ['tail_counter'], 0)
+    g = rw.atomics(g, ['tail_counter'], 0)
+    g = common(g, 'guard')
+    g = rw.number_sites(g, 'guard', by_kind=True)
+    out.append(g)
+    t = rw.sub(t, r'void push\( ticket_type k, queue_rep_type& base, queue_allocator_type& allocator, Args&&\.\.\. args \)',
+               'static void mq_push(struct micro_queue *self, ticket_type k, struct queue_rep *base, int *allocator, const value_type *args)', 1, 1, name='sig + bind-pack(Args:=const value_type&)')
+    t = rw.sub(t, r'(?s)auto value_guard = make_raii_guard\(\[&\] \{.*?\}\);', 'bool value_guard_active = true; /* raii_guard: body = mq_push_value_guard, run at every scope exit while active */', 1, 1, name='raii guard object -> flag (body sliced as mq_push_value_guard)')
+    t = rw.sub(t, r'value_guard\.dismiss\(\);', 'value_guard_active = false;', 0, name='guard.dismiss()')
+    t = rw.sub(t, r'size_type index = prepare_page\(k, base, page_allocator, p\);', 'size_type index = mq_prepare_page(self, k, base, page_allocator, &p); EXC_PROPAGATE();', 1, 1, name='method + ref-param (may throw: exception edge made explicit)')
+    t = rw.sub(t, r'page_allocator_traits::construct\(page_allocator, &\(\*p\)\[index\], std::forward<Args>\(args\)\.\.\.\);',
+               'STUB_construct_item(padded_page_at(p, index), args); if (EXC_PENDING()) { if (value_guard_active) mq_push_value_guard(self, base); return; }', 0, name='callee stub (element constructor; may throw: exception edge runs the guard)')
+    # normal scope exit: the guard's destructor
+    k_ = t.rstrip().rfind('}')
+    t = t[:k_] + '    if (value_guard_active) mq_push_value_guard(self, base); /* ~raii_guard */\n' + t[k_:]
+    rw.fired['raii guard destructor at scope exit'] = 1
+    t = rw.fields(t, ['tail_counter'], 0)
+    t = rw.atomics(t, ['tail_counter', 'mask'], 0)
+    t = common(t, 'push')
+    t = rw.number_sites(t, 'push', by_kind=True)
+    out.append(re.sub(r'^template<typename\.\.\. Args>\s*', '', t))
+    # micro_queue::abort_push
+    s = slice_block(QB, r'void abort_push\( ticket_type k, queue_rep_type& base, queue_allocator_type& allocator \)', within=MQ)
+    sliced.append('%s:%d micro_queue::abort_push' % (QB, s.line))
+    t = rw.sub(s.text, r'void abort_push\( ticket_type k, queue_rep_type& base, queue_allocator_type& allocator \)', 'static void mq_abort_push(struct micro_queue *self, ticket_type k, struct queue_rep *base, int *allocator)', 1, 1, name='sig')
+    t = rw.sub(t, r'prepare_page\(k, base, allocator, p\);', 'mq_prepare_page(self, k, base, 0, &p); EXC_PROPAGATE();', 1, 1, name='method + ref-param (may throw)')
+    t = rw.sub(t, r'\+\+base\.n_invalid_entries;', 'ATOMIC_PREINC(base->n_invalid_entries);', 0, name='atomic ++ (ref-param)')
+    t = rw.fields(t, ['tail_counter'], 0)
+    t = rw.atomics(t, ['tail_counter'], 0)
+    t = common(t, 'abort')
+    t = rw.number_sites(t, 'abort', by_kind=True)
+    out.append(t)
+    # micro_queue::assign_and_destroy_item
+    s = slice_block(QB, r'void assign_and_destroy_item\( void\* dst, padded_page& src, size_type index \)', within=MQ)
+    sliced.append('%s:%d micro_queue::assign_and_destroy_item' % (QB, s.line))
+    t = rw.sub(s.text, r'void assign_and_destroy_item\( void\* dst, padded_page& src, size_type index \)', 'static void mq_assign_and_destroy_item(struct micro_queue *self, void *dst, struct padded_page *src, size_type index)', 1, 1, name='sig')
+    t = rw.sub(t, r'auto& from = src\[index\];', 'value_type *from = padded_page_at(src, index);', 1, 1, name='reference local -> pointer; operator[]')
+    t = rw.scoped_locks(t, r'destroyer \w+\(([^)]*)\);', 0, None, lock='DESTROYER_CTOR', unlock='DESTROYER_DTOR')
+    t = rw.sub(t, r'std::move\(from\)', 'MOVE_FROM(from)', 0, name='std::move of the referenced item')
+    t = rw.sub(t, r'static_cast<T\*>', 'static_cast<value_type*>', 0, name='bind-template')
+    out.append(common(t, 'assign'))
+    # micro_queue_pop_finalizer: constructor + destructor
+    fin_members = _declared_order(slice_block(QB, FIN).text, ['my_ticket_type', 'my_queue', 'my_page', 'allocator'])
+    s = slice_block(QB, r'micro_queue_pop_finalizer\( Container& queue, Allocator& alloc, ticket_type k, padded_page\* p \)', within=FIN, ctor=True)
+    sliced.append('%s:%d micro_queue_pop_finalizer::micro_queue_pop_finalizer' % (QB, s.line))
+    hdr, body = _initlist_to_assignments(rw, s.text, fin_members)
+    t = rw.sub(hdr, r'micro_queue_pop_finalizer\( Container& queue, Allocator& alloc, ticket_type k, padded_page\* p \)\s*',
+               'static void finalizer_ctor(struct finalizer *self, struct micro_queue *queue, int *alloc, ticket_type k, struct padded_page *p) ', 1, 1, name='sig (reference parameters/members -> pointers)') + body
+    out.append(common(t, 'finctor'))
+    s = slice_block(QB, r'~micro_queue_pop_finalizer\(\)', within=FIN)
+    sliced.append('%s:%d micro_queue_pop_finalizer::~micro_queue_pop_finalizer' % (QB, s.line))
+    t = rw.sub(s.text, r'~micro_queue_pop_finalizer\(\)', 'static void finalizer_dtor(struct finalizer *self)', 1, 1, name='sig')
+    t = rw.fields(t, ['my_ticket_type', 'my_queue', 'my_page', 'allocator'], 1)
+    t = rw.sub(t, r'self->my_queue\.', 'self->my_queue->', 1, name='reference member -> pointer')
+    t = rw.scoped_locks(t, r'spin_mutex::scoped_lock \w+\(([^)]*)\);', 0, None)
+    t = rw.atomics(t, ['head_page', 'tail_page', 'head_counter'], 0)
+    t = rw.sub(t, r'allocator_traits_type::destroy\(self->allocator, static_cast<padded_page\*>\(p\)\);', 'STUB_page_destroy(p);', 0, name='callee stub (padded_page destructor: trivial)')
+    t = rw.sub(t, r'allocator_traits_type::deallocate\(self->allocator, static_cast<padded_page\*>\(p\), 1\);', 'STUB_page_deallocate(p);', 0, name='callee stub (allocator)')
+    t = common(t, 'fin')
+    t = rw.number_sites(t, 'fin', by_kind=True)
+    out.append(t)
+    # micro_queue::pop
+    s = slice_block(QB, r'bool pop\( void\* dst, ticket_type k, queue_rep_type& base, queue_allocator_type& allocator \)', within=MQ)
+    sliced.append('%s:%d micro_queue::pop' % (QB, s.line))
+    t = rw.sub(s.text, r'bool pop\( void\* dst, ticket_type k, queue_rep_type& base, queue_allocator_type& allocator \)', 'static bool mq_pop(struct micro_queue *self, void *dst, ticket_type k, struct queue_rep *base, int *allocator)', 1, 1, name='sig')
+
+    def finfn(m, a):
+        if len(a) != 4:
+            raise ExtractionBreak('micro_queue::pop: finalizer constructed with %d arguments' % len(a))
+        return 'struct finalizer finalizer; finalizer_ctor(&finalizer, %s, &%s, %s, %s)' % (re.sub(r'^\*\s*this$', 'self', a[0]), a[1], a[2], a[3])
+    n0 = len(re.findall(r'micro_queue_pop_finalizer<self_type, value_type, page_allocator_type> finalizer\(', t))
+    if n0 != 1:
+        raise ExtractionBreak('micro_queue::pop: %d finalizer objects' % n0)
+    # the destructor call goes where the object leaves its scope: the closing brace of the enclosing block (no return inside it)
+    mk = cxx2c.mask(t)
+    at = mk.find('micro_queue_pop_finalizer<')
+    d, i = 0, at - 1
+    while i >= 0:
+        if mk[i] == '}':
+            d += 1
+        elif mk[i] == '{':
+            if d == 0:
+                break
+            d -= 1
+        i -= 1
+    close = cxx2c.match_close(mk, i)
+    if re.search(r'\breturn\b', mk[at:close]):
+        raise ExtractionBreak('micro_queue::pop: return inside the finalizer scope')
+    t = t[:close] + 'finalizer_dtor(&finalizer); /* ~micro_queue_pop_finalizer at scope exit */\n        ' + t[close:]
+    t = rw.call(t, r'micro_queue_pop_finalizer<self_type, value_type, page_allocator_type> finalizer', finfn, 1, 1, name='RAII finalizer object -> constructor call here, destructor call at scope exit')
+    t = rw.sub(t, r'spin_wait_until_eq\(head_counter, k\);', 'spin_wait_until_eq(&self->head_counter, k);', 0, name='callee (extracted) + ref-param')
+    t = rw.sub(t, r'spin_wait_while_eq\(tail_counter, k\);', 'spin_wait_while_eq(&self->tail_counter, k);', 0, name='callee (extracted) + ref-param')
+    t = rw.sub(t, r'assign_and_destroy_item\(dst, \*p, index\);', 'mq_assign_and_destroy_item(self, dst, p, index);', 0, name='method + ref-param')
+    t = rw.sub(t, r'--base\.n_invalid_entries;', 'ATOMIC_PREDEC(base->n_invalid_entries);', 0, name='atomic -- (ref-param)')
+    t = rw.fields(t, ['head_page'], 1)
+    t = rw.atomics(t, ['head_page', 'mask'], 0)
+    t = common(t, 'pop')
+    t = rw.number_sites(t, 'pop', by_kind=True)
+    out.append(t)
+    common_write = '\n'.join(out) + '\n'
+    common_mod = sys.modules['common']
+    common_mod.write(ctx, 'lane.inc', common_write)
+    fired['lane'] = rw.fired
